@@ -25,6 +25,19 @@ Section Check.
     Report (mismatches l) (oracle_failures l).
 End Check.
 
+(* variant whose observation comparer may depend on the case (e.g. fields compared only when the
+   model's prediction is exact for that case) *)
+Section CheckC.
+  Context {C O : Type}.
+  Variable run : C -> O.
+  Variable obs_eqbc : C -> O -> O -> bool.
+  Variable ok : C -> O -> bool.
+  Definition check_c (l : list (N * C * O)) : report :=
+    Report (map (fun t => fst (fst t))
+              (filter (fun t => negb (obs_eqbc (snd (fst t)) (run (snd (fst t))) (snd t))) l))
+           (oracle_failures ok l).
+End CheckC.
+
 (* small decidable equalities reused by the per-property observation comparers *)
 Fixpoint list_eqb {A} (eqb : A -> A -> bool) (l1 l2 : list A) : bool :=
   match l1, l2 with
